@@ -737,6 +737,16 @@ func c18SymlinkNoFollow(c *Ctx) {
 				if call.Parent() != g {
 					continue
 				}
+				// a primitive handed on as a function value ("applyOwner(dst, os.Chown, ...)")
+				for _, a := range call.Common().Args {
+					if fv, isFn := a.(*ssa.Function); isFn && fv.Object() != nil {
+						vn := short(fv.Object().(*types.Func).FullName())
+						if alt, bad := follows[vn]; bad {
+							n++
+							c.bad(key+":"+vn, call.Pos(), "%s (passed as a function value) follows a symbolic link: applied to a symlink entry it changes the object the link points to; use %s", vn, alt)
+						}
+					}
+				}
 				name := callee(call)
 				if alt, bad := follows[name]; bad {
 					n++
